@@ -1,8 +1,8 @@
 #!/verif/.venv/bin/python
 # Replay of a solver counterexample against the unmodified code (no shims).
-# property=C12 kernel=layout label=k2:layout_accept_iff_trap_count_fits
+# property=C12 kernel=coords label=k1:offending_pairs_exact
 import sys
 sys.path[:0] = ['/repo' + "/pulser-core", '/repo' + "/pulser-simulation", "/verif"]
 from symx.replay import replay
-sys.exit(replay(check='checks.c12', kernel='layout', shape={'ntraps': 4, 'nq': 2, 'maxt': False},
-                assignment={'max_layout_filling': '1/2', 'min_layout_traps': 5, 'max_atom_num': 1}, label='k2:layout_accept_iff_trap_count_fits'))
+sys.exit(replay(check='checks.c12', kernel='coords', shape={'dims': 2, 'n': 3, 'nsym': 1, 'mind': False, 'maxr': True, 'maxn': False, 'unsorted': True},
+                assignment={'max_radial_distance': '0/1', 'x0_0': '6/1', 'x0_1': '0/1'}, label='k1:offending_pairs_exact'))
